@@ -71,7 +71,9 @@ func New(s string) (FileMode, error) {
 // Please note this function does not check if the returned FileMode
 // is valid in git or if it is malformed.
 func FromBytes(b []byte) (FileMode, error) {
-	if len(b) == 0 || len(b) > 7 {
+	// Like git's get_mode, any number of octal digits is accepted: trees in
+	// the wild carry zero-padded modes of every width.
+	if len(b) == 0 {
 		return Empty, fmt.Errorf("invalid mode length: %d", len(b))
 	}
 
